@@ -111,11 +111,15 @@ def outJ : Out → Json
   | .err e => .arr #[.str "err", .str e.name]
   | .skip => .arr #[.str "skip"]
 
-/-- indices `j ≤ i` satisfying `p` -/
-def rowOf (objs : List Quantity) (i : Nat) (p : Quantity → Bool) : List Nat :=
-  ((objs.take (i + 1)).zipIdx.filter (fun qi => p qi.1)).map (·.2)
+/-- in a long ("light") history the equality row is reported against the first `heldCount` objects
+(the ones the history holds on to) and the object itself only -/
+def heldCount : Nat := 12
 
-def objJ (s : State) (i : Nat) (q : Quantity) : Json :=
+/-- indices `j ≤ i` satisfying `p` -/
+def rowOf (objs : List Quantity) (i : Nat) (light : Bool) (p : Quantity → Bool) : List Nat :=
+  ((objs.take (i + 1)).zipIdx.filter (fun qi => (!light || qi.2 < heldCount || qi.2 == i) && p qi.1)).map (·.2)
+
+def objJ (light : Bool) (s : State) (i : Nat) (q : Quantity) : Json :=
   let cs := (cellsOf s q)
   match cs with
   | none => Json.mkObj [("dangling", .bool true)]
@@ -125,8 +129,8 @@ def objJ (s : State) (i : Nat) (q : Quantity) : Json :=
       ("cap", symJ q.caption),
       ("d", .bool q.derived),
       ("j", .arr ((joined cs).map (fun ue => Json.arr #[symJ ue.1, intJ ue.2])).toArray),
-      ("eq", .arr ((rowOf s.objs i (qeq s.heap q)).map natJ).toArray),
-      ("hq", .arr ((rowOf s.objs i (contentEq s.heap q)).map natJ).toArray)]
+      ("eq", .arr ((rowOf s.objs i light (qeq s.heap q)).map natJ).toArray),
+      ("hq", .arr ((rowOf s.objs i light (contentEq s.heap q)).map natJ).toArray)]
 
 /-- nothing older changed: objects and cache entries are a prefix of the new ones and every old
 object shows the same view through the new heap -/
@@ -135,19 +139,26 @@ def stable (s s' : State) : Bool :=
   && s'.cache.take s.cache.length == s.cache
   && s.objs.all (fun q => view s'.heap q == view s.heap q)
 
-def stepJ (s s' : State) (o : Out) : Json :=
+/-- the same for long histories, in time linear in the state: the old heap, objects and cache are a
+prefix of the new ones (every old object only refers to old cells) -/
+def stableLight (s s' : State) : Bool :=
+  s'.objs.take s.objs.length == s.objs
+  && s'.cache.take s.cache.length == s.cache
+  && s'.heap.take s.heap.length == s.heap
+
+def stepJ (light : Bool) (s s' : State) (o : Out) : Json :=
   Json.mkObj [
     ("r", outJ o),
-    ("st", .bool (stable s s')),
+    ("st", .bool (if light then stableLight s s' else stable s s')),
     ("e", match s'.empty with | none => .null | some i => natJ i),
     ("nk", .arr ((s'.cache.drop s.cache.length).map (fun ki => Json.arr #[keyJ ki.1, natJ ki.2])).toArray),
-    ("nq", .arr (((s'.objs.zipIdx).drop s.objs.length).map (fun qi => objJ s' qi.2 qi.1)).toArray)]
+    ("nq", .arr (((s'.objs.zipIdx).drop s.objs.length).map (fun qi => objJ light s' qi.2 qi.1)).toArray)]
 
-def runOps (db : Db) (g : Guard) : Session → List Op → List Json
+def runOps (db : Db) (g : Guard) (light : Bool) : Session → List Op → List Json
   | _, [] => []
   | ss, op :: ops =>
     let r := step db g ss op
-    stepJ ss.st r.1.st r.2 :: runOps db g r.1 ops
+    stepJ light ss.st r.1.st r.2 :: runOps db g light r.1 ops
 
 def handle (j : Json) : Except String Json := do
   let op ← getStr j "op"
@@ -161,7 +172,10 @@ def handle (j : Json) : Except String Json := do
         let b ← intOf b
         pure (Guard.mk a.toNat b.toNat)
       | _ => throw "missing guard"
-    pure (Json.mkObj [("ok", Json.arr (runOps Gen.poscDb g {} ops).toArray)])
+    let light := match j.getObjVal? "light" with
+      | .ok (.bool b) => b
+      | _ => false
+    pure (Json.mkObj [("ok", Json.arr (runOps Gen.poscDb g light {} ops).toArray)])
   | _ => throw s!"unknown op {op}"
 
 def step' (j : Json) : Json :=
